@@ -167,6 +167,12 @@ class Source:
                 for s, p in stats_dict.items()
                 if p >= self.probability_threshold
             }
+            # A threshold above every input probability leaves nothing to
+            # normalise
+            if not thresholded_dict:
+                raise ValueError(
+                    "probability_threshold removes all possible input states."
+                )
             # Re-normalize after removing values
             total = sum(thresholded_dict.values())
             for s, p in thresholded_dict.items():
